@@ -293,6 +293,347 @@ def run_live_orders(case):
         return out
 
 
+def run_live_exec(case):
+    """Requests, exchange responses (any outcome / fault), order-stream snapshots on a REAL live Flumine + BetfairExecution.
+    The thread pool is inline; packages are held until the script delivers them.  The script is ADAPTIVE (indices are taken
+    modulo what exists) and every step reports the concrete facts (which orders, which bet ids, which reports), from which
+    the harness builds the model's events.
+    steps: ["book", status]
+           ["place", strat, sel, side, price_c, size_c, trade_pick|None, async]
+           ["req", kind, order_pick, arg]
+           ["txn", [["place", ...] | ["req", ...], ...]]
+           ["deliver", pkg_pick, {"errors": n, "unknown": bool, "reports": [descriptor...], "perm": "id"|"rev"|"drop_first"|"drop_all"}]
+           ["stream", [{"pick": j | None, "foreign": [strategy idx|name, id], "status": .., "matched_frac": 0|1|2, "bet": "own"|"fresh", "sel":..}...]]
+           ["restart"]"""
+    import types
+    from betfairlightweight import BetfairError, resources
+    from flumine.order.trade import Trade
+    from flumine.order.ordertype import LimitOrder
+    from flumine.order.orderpackage import OrderPackageType
+    from flumine.strategy.runnercontext import RunnerContext
+    from flumine.clients.clients import ExchangeType
+    import flumine.order.orderpackage as opmod
+    MID = "1.101"
+    Clock.now = real_datetime.datetime(2024, 1, 1, 12, 0, 0)
+    resets = {}
+    orig_reset = RunnerContext.reset
+    def counting_reset(self, trade_id):
+        resets[id(self)] = resets.get(id(self), 0) + 1
+        return orig_reset(self, trade_id)
+    with mock.patch.object(market_module, "datetime", FakeDatetimeModule), mock.patch.object(opmod.time, "sleep", lambda s: None), \
+         mock.patch.object(RunnerContext, "reset", counting_reset):
+        log = []
+        W = {}
+        def new_framework():
+            betting_client = mock.Mock(); betting_client.username = "u"; betting_client.lightweight = False
+            client = clients.BetfairClient(betting_client, min_bet_validation=False) if "min_bet_validation" in clients.BetfairClient.__init__.__code__.co_varnames else clients.BetfairClient(betting_client)
+            fw = Flumine(client=client)
+            class Inline:
+                _threads = []
+                _work_queue = types.SimpleNamespace(qsize=lambda: 0)
+                def submit(self, fn, *a):
+                    fn(*a)
+                def shutdown(self, wait=True):
+                    pass
+            fw.betfair_execution._thread_pool = Inline()
+            sts = []
+            for i in range(case["strategies"]):
+                st = Strat(i, log, market_filter={"marketIds": [MID]}, name="s%d" % i, max_trade_count=10 ** 6, max_live_trade_count=10 ** 6,
+                           max_order_exposure=10 ** 9, max_selection_exposure=10 ** 9)
+                fw.add_strategy(st); sts.append(st)
+            W["packages"] = []
+            fw.process_order_package = lambda p: W["packages"].append(p)
+            from flumine.streams.marketstream import MarketStream
+            stream = [s for s in fw.streams if isinstance(s, MarketStream)][0]
+            q = queue.Queue()
+            ls = StreamListener(output_queue=q, max_latency=None)
+            ls.register_stream(stream.stream_id, "marketSubscription")
+            W.update(fw=fw, client=client, bc=betting_client, strategies=sts, stream=stream, ls=ls, q=q)
+        new_framework()
+        ids = {}          # order.id -> name (names survive a restart: the id is what the exchange echoes back)
+        parent = {}       # replacement order id -> the id whose customer ref the exchange keeps for it
+        tnames = {}       # trade.id -> trade name
+        exch_bet = {}     # order id -> the exchange's bet id for it (allocated at placement time by the double)
+        counters = {"o": 0, "r": 0, "t": 0, "bet": 7000, "ver": 0, "clk": 0}
+        calls = {}
+
+        def fresh_bet():
+            counters["bet"] += 1
+            return str(counters["bet"])
+
+        def all_orders():
+            m = W["fw"].markets.markets.get(MID)
+            return list(m.blotter._orders.values()) if m else []
+
+        def name_of(o):
+            if o.id not in ids:
+                ids[o.id] = "r%d" % counters["r"]; counters["r"] += 1
+            return ids[o.id]
+
+        def tname(t):
+            if t.id not in tnames:
+                tnames[t.id] = "t%d" % counters["t"]; counters["t"] += 1
+            return tnames[t.id]
+
+        def guarded(fn):
+            try:
+                return fn()
+            except Exception as e:
+                return "EXC:" + type(e).__name__ + ":" + str(e)[:60]
+
+        def do_request(r, facts):
+            sts = W["strategies"]
+            if r[0] == "place":
+                _, si, sel, side, price, size, tpick, asyn = r
+                market = W["fw"].markets.markets[MID]
+                cands = [t for t in {id(o.trade): o.trade for o in all_orders()}.values() if t.strategy is sts[si % len(sts)] and t.selection_id == sel]
+                if tpick is not None and cands:
+                    tr = cands[tpick % len(cands)]
+                else:
+                    tr = Trade(MID, sel, 0, sts[si % len(sts)])
+                o = tr.create_order(side, LimitOrder(price / 100, size / 100, persistence_type="LAPSE"))
+                nm = "o%d" % counters["o"]; counters["o"] += 1
+                ids[o.id] = nm
+                facts.append({"req": "place", "order": nm, "trade": tname(tr), "strategy": si % len(sts), "sel": sel, "side": side, "price": price, "size": size, "async": bool(asyn)})
+                return lambda t: t.place_order(o)
+            _, kind, pick, arg = r[:4]
+            os_ = all_orders()
+            if len(r) > 4 and r[4]:
+                os_ = [o for o in os_ if o.status.value == "Executable" and o.bet_id is not None] or os_
+            if not os_:
+                facts.append({"req": "none"})
+                return lambda t: "noorder"
+            o = os_[pick % len(os_)]
+            facts.append({"req": kind, "order": name_of(o), "arg": arg, "status_before": o.status.value, "bet_before": o.bet_id})
+            if kind == "cancel":
+                return lambda t: t.cancel_order(o, None if arg is None else arg / 100)
+            if kind == "update":
+                return lambda t: t.update_order(o, arg)
+            return lambda t: t.replace_order(o, arg / 100)
+
+        def fake_call(kind, outcome, pkg, sent):
+            attempts = {"n": 0}
+            def call(**kw):
+                attempts["n"] += 1
+                calls[id(pkg)] = attempts["n"]
+                if outcome.get("unknown"):
+                    raise RuntimeError("boom")
+                if attempts["n"] <= outcome.get("errors", 0):
+                    raise BetfairError("api error")
+                ins = kw.get("instructions") or []
+                descs = outcome.get("reports") or []
+                D = lambda i: descs[i % len(descs)] if descs else {}
+                by_ref = {o.customer_order_ref: o for o in pkg._orders}
+                by_bet = {o.bet_id: o for o in pkg._orders if o.bet_id is not None}
+                reps = []
+                del sent[:]
+                if kind == "place":
+                    for k, i in enumerate(ins):
+                        o = by_ref[i["customerOrderRef"]]; d = D(k)
+                        st = d.get("status", "SUCCESS")
+                        rep = {"status": st, "instruction": {"selectionId": o.selection_id, "side": o.side, "orderType": "LIMIT", "limitOrder": {"size": o.order_type.size, "price": o.order_type.price, "persistenceType": "LAPSE"}}}
+                        bet = None
+                        if st == "SUCCESS" or d.get("with_bet"):
+                            bet = exch_bet.setdefault(o.id, fresh_bet())
+                            rep["betId"] = bet
+                        m = 0
+                        if st == "SUCCESS":
+                            m = int(round(o.order_type.size * 100)) * d.get("matched_frac", 0) // 2
+                            rep["orderStatus"] = d.get("order_status", "EXECUTABLE"); rep["sizeMatched"] = m / 100; rep["averagePriceMatched"] = o.order_type.price if m else 0.0
+                            if rep["orderStatus"] == "PENDING":     # async: the report carries no bet id yet
+                                rep.pop("betId"); bet = None
+                        else:
+                            rep["errorCode"] = "ERROR_IN_ORDER"
+                        reps.append(rep)
+                        sent.append({"order": name_of(o), "status": st, "order_status": rep.get("orderStatus"), "bet": bet, "matched": m})
+                    return resources.PlaceOrders(elapsed_time=0.1, **{"marketId": pkg.market_id, "status": "SUCCESS", "instructionReports": reps})
+                if kind == "cancel":
+                    seq = list(enumerate(ins))
+                    perm = outcome.get("perm", "id")
+                    if perm == "rev":
+                        seq = seq[::-1]
+                    elif perm == "drop_first":
+                        seq = seq[1:]
+                    elif perm == "drop_all":
+                        seq = []
+                    for k, i in seq:
+                        o = by_bet[i["betId"]]; d = D(k)
+                        st = d.get("status", "SUCCESS")
+                        rep = {"status": st, "instruction": {"betId": i["betId"]}}
+                        sc = None
+                        if st == "SUCCESS":
+                            rem = int(round(o.size_remaining * 100))
+                            sc = {"all": rem, "half": rem // 2, "zero": 0}[d.get("size", "all")]
+                            rep["sizeCancelled"] = sc / 100
+                        elif st == "FAILURE":
+                            rep["errorCode"] = d.get("error_code", "ERROR_IN_ORDER")
+                        reps.append(rep)
+                        sent.append({"order": name_of(o), "bet": i["betId"], "status": st, "size_cancelled": sc, "taken_or_lapsed": rep.get("errorCode") == "BET_TAKEN_OR_LAPSED"})
+                    return resources.CancelOrders(elapsed_time=0.1, **{"marketId": pkg.market_id, "status": "SUCCESS", "instructionReports": reps})
+                if kind == "update":
+                    for k, i in enumerate(ins):
+                        o = by_bet[i["betId"]]; d = D(k)
+                        st = d.get("status", "SUCCESS")
+                        rep = {"status": st, "instruction": {"betId": i["betId"], "newPersistenceType": i["newPersistenceType"]}}
+                        if st == "FAILURE":
+                            rep["errorCode"] = "ERROR_IN_ORDER"
+                        reps.append(rep)
+                        sent.append({"order": name_of(o), "status": st})
+                    return resources.UpdateOrders(elapsed_time=0.1, **{"marketId": pkg.market_id, "status": "SUCCESS", "instructionReports": reps})
+                for k, i in enumerate(ins):
+                    o = by_bet[i["betId"]]; d = D(k)
+                    cs, ps = d.get("cancel", "SUCCESS"), d.get("place", "SUCCESS")
+                    if int(round(o.size_remaining * 100)) == 0 and cs == "SUCCESS":
+                        cs = "FAILURE"                               # nothing left to cancel
+                    if cs != "SUCCESS":
+                        ps = "FAILURE" if ps == "SUCCESS" else ps    # the exchange places only after a successful cancel
+                    c = {"status": cs, "instruction": {"betId": i["betId"]}}
+                    rem = int(round(o.size_remaining * 100))
+                    if cs == "SUCCESS":
+                        c["sizeCancelled"] = rem / 100
+                    elif cs == "FAILURE":
+                        c["errorCode"] = "ERROR_IN_ORDER"
+                    pl = {"status": ps, "instruction": {"selectionId": o.selection_id, "side": o.side, "orderType": "LIMIT",
+                                                        "limitOrder": {"size": rem / 100, "price": i["newPrice"], "persistenceType": "LAPSE"}}}
+                    bet = None
+                    if ps == "SUCCESS":
+                        bet = fresh_bet()
+                        pl["betId"] = bet; pl["orderStatus"] = "EXECUTABLE"; pl["sizeMatched"] = 0.0; pl["averagePriceMatched"] = 0.0
+                    else:
+                        pl["errorCode"] = "ERROR_IN_ORDER"
+                    reps.append({"status": "SUCCESS" if cs == ps == "SUCCESS" else "FAILURE", "cancelInstructionReport": c, "placeInstructionReport": pl})
+                    sent.append({"order": name_of(o), "cancel": cs, "place": ps, "bet": bet, "price": int(round(i["newPrice"] * 100)), "size": rem})
+                return resources.ReplaceOrders(elapsed_time=0.1, **{"marketId": pkg.market_id, "status": "SUCCESS", "instructionReports": reps})
+            return call
+
+        def dump():
+            client, sts = W["client"], W["strategies"]
+            ctl = [c for c in client.trading_controls if getattr(c, "NAME", None) == "MAX_TRANSACTION_COUNT"][0]
+            d = {"orders": [], "ctx": {}, "tx": [ctl.transaction_count, ctl.failed_transaction_count]}
+            market = W["fw"].markets.markets.get(MID)
+            if market is None:
+                return d
+            for o in market.blotter._orders.values():
+                d["orders"].append({"o": name_of(o), "strategy": sts.index(o.trade.strategy) if o.trade.strategy in sts else -1,
+                                    "sel": o.selection_id, "status": o.status.value if o.status else None, "log": [x.value for x in o.status_log], "complete": o.complete,
+                                    "bet": o.bet_id, "matched": int(round((o.size_matched or 0) * 100)), "remaining": int(round((o.size_remaining or 0) * 100)),
+                                    "live": o in market.blotter._live_orders, "trade_status": o.trade.status.value, "trade_log": [x.value for x in o.trade.status_log],
+                                    "trade": tname(o.trade), "trade_orders": sorted(ids.get(x.id, "?") for x in o.trade.orders),
+                                    "async": bool(o.async_), "size": int(round((o.order_type.size or 0) * 100)), "price": int(round(o.order_type.price * 100)),
+                                    "bet_lookup_ok": (market.blotter._bet_id_lookup.get(o.bet_id) is o) if o.bet_id is not None else None})
+            for i, st in enumerate(sts):
+                for k, rc in st._invested.items():
+                    if k[0] == MID:
+                        d["ctx"]["%d/%s" % (i, k[1])] = {"trades": len(rc.trades), "live": len(rc.live_trades), "resets": resets.get(id(rc), 0)}
+            return d
+
+        out = []
+        for step in case["steps"]:
+            res = None
+            fw = W["fw"]
+            if step[0] == "book":
+                counters["ver"] += 1; counters["clk"] += 1
+                mc = {"id": MID, "marketDefinition": market_definition(step[1], "31000001", counters["ver"]), "img": True}
+                if step[1] != "CLOSED":
+                    mc["rc"] = [{"id": 101, "atb": [[2.0, 50]], "atl": [[2.1, 50]]}, {"id": 202, "atb": [[2.0, 50]], "atl": [[2.1, 50]]}]
+                W["ls"].on_data(json.dumps({"op": "mcm", "id": W["stream"].stream_id, "clk": str(counters["clk"]), "pt": Clock.epoch_ms(), "mc": [mc]}))
+                while not W["q"].empty():
+                    fw.handler_queue.put(events.MarketBookEvent(W["q"].get()))
+                pump(fw)
+            elif step[0] in ("place", "req", "txn"):
+                market = fw.markets.markets.get(MID)
+                if market is not None:
+                    facts = []
+                    reqs = step[1] if step[0] == "txn" else [step]
+                    asyn = any(r[0] == "place" and r[7] for r in reqs)
+                    n0 = len(W["packages"])
+                    def run():
+                        rs = []
+                        with market.transaction(async_place_orders=asyn) as t:
+                            for r in reqs:
+                                fn = do_request(r, facts)
+                                rs.append(guarded(lambda: fn(t)))
+                        return rs
+                    rs = guarded(run)
+                    for f in facts:
+                        if f["req"] == "place":
+                            f["async"] = bool(asyn)      # async is a property of the transaction
+                    res = {"facts": facts, "results": rs, "new_packages": [[p.package_type.value, [name_of(o) for o in p._orders]] for p in W["packages"][n0:]]}
+            elif step[0] == "deliver":
+                pend = [p for p in W["packages"] if p is not None]
+                if pend:
+                    pkg = pend[step[1] % len(pend)]
+                    W["packages"][W["packages"].index(pkg)] = None
+                    outcome = step[2]
+                    kind = {OrderPackageType.PLACE: "place", OrderPackageType.CANCEL: "cancel", OrderPackageType.UPDATE: "update", OrderPackageType.REPLACE: "replace"}[pkg.package_type]
+                    sent = []
+                    bet = W["bc"].betting
+                    getattr(bet, kind + "_orders").side_effect = fake_call(kind, outcome, pkg, sent)
+                    res = {"kind": kind, "orders": [name_of(o) for o in pkg._orders], "before": [o.status.value for o in pkg._orders]}
+                    try:
+                        fw.betfair_execution.handler(pkg)
+                    except Exception as e:
+                        res["exc"] = type(e).__name__ + ":" + str(e)[:80]
+                    res["calls"] = calls.get(id(pkg), 0)
+                    res["responded"] = (not outcome.get("unknown")) and res["calls"] > outcome.get("errors", 0)
+                    res["sent"] = sent if res["responded"] else []
+                    # replacement orders created by this response get the customer ref of the order they replace
+                    if kind == "replace" and res["responded"]:
+                        for x in sent:
+                            if x["bet"] is not None:
+                                r_ = [o for o in all_orders() if o.bet_id == x["bet"]]
+                                if r_:
+                                    par = [o for o in pkg._orders if name_of(o) == x["order"]][0]
+                                    parent[r_[0].id] = parent.get(par.id, par.id)
+                                    exch_bet[r_[0].id] = x["bet"]
+                                    x["new_order"] = name_of(r_[0])
+            elif step[0] == "stream":
+                rows, facts = [], []
+                os_ = all_orders()
+                for d in step[1]:
+                    if d.get("foreign") is not None:
+                        si, fid = d["foreign"]
+                        r = {"ref": ["foreign", si, fid], "market": MID, "bet": exch_bet.setdefault("F" + str(fid), fresh_bet()), "status": d["status"], "sel": d.get("sel", 101), "price": 200}
+                        size = 400
+                        nm, known = "f%s" % fid, isinstance(si, int)
+                        ids.setdefault(str(fid), nm)
+                        sidx = si if known else None
+                        ref_id = str(fid)
+                    else:
+                        if not os_:
+                            continue
+                        cand = ([o for o in os_ if not o.complete] or os_) if d.get("prefer_live") else os_
+                        o = cand[d["pick"] % len(cand)]
+                        ref_id = parent.get(o.id, o.id)
+                        bet = exch_bet.setdefault(o.id, fresh_bet()) if d.get("bet", "own") == "own" else fresh_bet()
+                        size = int(round(o.order_type.size * 100))
+                        sidx = W["strategies"].index(o.trade.strategy)
+                        r = {"ref": ["foreign", sidx, ref_id], "market": MID, "bet": bet, "status": d["status"], "sel": o.selection_id, "price": int(round(o.order_type.price * 100)), "side": o.side}
+                        nm = ids[ref_id]
+                    complete = d["status"] in ("EXECUTION_COMPLETE", "EXPIRED")
+                    m = size * d.get("matched_frac", 0) // 2
+                    r["matched"] = m
+                    r["remaining"] = 0 if complete else size - m
+                    r["cancelled"] = size - m if complete else 0
+                    rows.append(current_order_row(r, {}, W["strategies"]))
+                    facts.append({"ref_order": nm, "bet": r["bet"], "complete": complete, "matched": m, "remaining": r["remaining"], "cancelled": r["cancelled"],
+                                  "strategy": sidx, "sel": r["sel"], "size": size, "price": r["price"]})
+                co = types.SimpleNamespace(client=W["client"], orders=rows)
+                res = {"rows": facts}
+                try:
+                    fw._process_current_orders(events.CurrentOrdersEvent([co], exchange=ExchangeType.BETFAIR))
+                except Exception as e:
+                    res["exc"] = type(e).__name__ + ":" + str(e)[:100]
+            elif step[0] == "restart":
+                new_framework()
+                res = {"restart": True}
+            d = dump()
+            d["res"] = res
+            d["pending_packages"] = [[p.package_type.value, [name_of(o) for o in p._orders]] for p in W["packages"] if p is not None]
+            out.append(d)
+        return out
+
+
 def run_live_callbacks(case):
     """raw-data and custom-event callbacks on a live framework, with an exception injected at one invocation.
     case: {"n": strategies, "data": [datum dicts...], "inject": {"s": idx, "k": invocation index, "exc": "value"|"flumine"} | None,
@@ -345,5 +686,5 @@ def run_live_callbacks(case):
 
 if __name__ == "__main__":
     j = json.load(sys.stdin)
-    fn = {"closure": run_live_closure, "orders": run_live_orders, "callbacks": run_live_callbacks}[j.get("job", "closure")]
+    fn = {"closure": run_live_closure, "orders": run_live_orders, "callbacks": run_live_callbacks, "exec": run_live_exec}[j.get("job", "closure")]
     print(json.dumps({"out": [fn(c) for c in j["cases"]]}, default=str))
